@@ -33,6 +33,10 @@ pub struct Transaction<SP: StorageProvider, PS> {
     perspective: Option<SP::Perspective>,
     /// Head of the current perspective
     phead: Option<CmdId>,
+    /// Parents of the current perspective. They stay in `heads` (so that
+    /// `locate` keeps finding them and everything below them) until the
+    /// perspective is written out and its segment takes their place.
+    pparents: Prior<CmdId>,
     /// Written but not committed heads
     heads: BTreeMap<CmdId, Location>,
     /// Tag for associated policy store
@@ -46,6 +50,7 @@ impl<SP: StorageProvider, PS> Transaction<SP, PS> {
             original_heads_offset: None,
             perspective: None,
             phead: None,
+            pparents: Prior::None,
             heads: BTreeMap::new(),
             policy_store: PhantomData,
         }
@@ -89,7 +94,12 @@ impl<SP: StorageProvider, PS: PolicyStore> Transaction<SP, PS> {
     pub fn flush(&mut self, storage: &mut SP::Storage) -> Result<(), ClientError> {
         if let Some(p) = Option::take(&mut self.perspective) {
             self.phead = None;
+            let parents = mem::replace(&mut self.pparents, Prior::None);
             let segment = storage.write(p)?;
+            // The new segment covers its parents: they are no longer tips.
+            for parent in parents {
+                self.heads.remove(&parent);
+            }
             self.heads
                 .insert(segment.head_id(), segment.head_location()?);
         }
@@ -318,10 +328,7 @@ impl<SP: StorageProvider, PS: PolicyStore> Transaction<SP, PS> {
         MS: Fn() -> Result<F, StorageError>,
     {
         // Must always start a new perspective for merges.
-        if let Some(p) = Option::take(&mut self.perspective) {
-            let seg = storage.write(p)?;
-            self.heads.insert(seg.head_id(), seg.head_location()?);
-        }
+        self.flush(storage)?;
 
         let left_loc = self
             .locate(storage, left, &mut buffers.traversal.primary)?
@@ -352,9 +359,9 @@ impl<SP: StorageProvider, PS: PolicyStore> Transaction<SP, PS> {
         )?;
         perspective.add_command(command)?;
 
-        // These are no longer heads of the transaction, since they are both covered by the merge
-        self.heads.remove(&left.id);
-        self.heads.remove(&right.id);
+        // These stop being heads of the transaction once the merge segment is
+        // written, since they are both covered by the merge.
+        self.pparents = Prior::Merge(left.id, right.id);
 
         self.perspective = Some(perspective);
         self.phead = Some(command.id());
@@ -381,11 +388,7 @@ impl<SP: StorageProvider, PS: PolicyStore> Transaction<SP, PS> {
         }
 
         // Write out the current perspective.
-        if let Some(p) = Option::take(&mut self.perspective) {
-            self.phead = None;
-            let seg = storage.write(p)?;
-            self.heads.insert(seg.head_id(), seg.head_location()?);
-        }
+        self.flush(storage)?;
 
         let loc = self
             .locate(storage, parent, buffer)?
@@ -397,7 +400,7 @@ impl<SP: StorageProvider, PS: PolicyStore> Transaction<SP, PS> {
             .insert(storage.get_linear_perspective(loc)?);
 
         self.phead = Some(parent.id);
-        self.heads.remove(&parent.id);
+        self.pparents = Prior::Single(parent.id);
 
         Ok(p)
     }
